@@ -3,7 +3,7 @@
    DOT: [lex]/[parse] (S_Dot) are an independent lexer and recogniser of the DOT language;
    [compose_dot] (M_Dot) is the model of ComposeDot, tied to the code by correspondence.
    callgrind: [decode] (S_Callgrind) is a reference reader; [cg_lines] (M_Callgrind) the model. *)
-From PV Require Import M_Dot S_Dot S_DotClass L_Dot L_Dot2 L_Dot3 L_Dot4 M_Callgrind S_Callgrind L_Callgrind L_CallgrindText.
+From PV Require Import M_Dot S_Dot S_DotClass L_Dot L_Dot2 L_Dot3 L_Dot4 M_Callgrind S_Callgrind L_Callgrind L_CallgrindText M_Trim L_Trim.
 Open Scope string_scope.
 Open Scope Z_scope.
 
@@ -177,6 +177,34 @@ Theorem callgrind_newline_name_refuted :
 Proof. vm_compute. repeat split; reflexivity. Qed.
 Print Assumptions callgrind_newline_name_refuted.
 
+(* ---------------- the trimming step that feeds ComposeDot (call trees) ---------------- *)
+(* TrimTree on a forest (parents strictly closer to the root, every node of the forest LISTED in
+   g.Nodes when it runs): every edge that is left joins two kept nodes, so [edges_within_nodes]
+   holds for what ComposeDot is given *)
+Theorem trim_tree_closed : forall rank kept listed pm,
+  wf rank pm -> (forall x, In x (dom pm) -> In x listed) ->
+  forall c p, In (c, p) (trim_tree kept listed pm) -> p <> 0 -> In c kept /\ In p kept.
+Proof. exact trim_tree_closed_lemma. Qed.
+Print Assumptions trim_tree_closed.
+
+(* the two passes of newTrimmedGraph (nodefraction cut-off, then nodecount): the second pass finds
+   every node of the forest listed because the first one unlinked what it dropped *)
+Theorem trim_twice_closed : forall rank k1 k2 listed pm,
+  wf rank pm -> (forall x, In x (dom pm) -> In x listed) ->
+  forall c p, In (c, p) (trim_tree k2 (trim_nodes k1 listed) (trim_tree k1 listed pm)) -> p <> 0 -> In c k2 /\ In p k2.
+Proof. exact trim_twice_closed_lemma. Qed.
+Print Assumptions trim_twice_closed.
+
+(* the hypothesis cannot be dropped: nodes that were only taken off the list (not unlinked) keep
+   their parents' edges -- ComposeDot then prints an edge to an undeclared node *)
+Definition w_tree : pmap := [(1, 0); (2, 1); (3, 2); (4, 2); (5, 2); (6, 1); (7, 6); (8, 6); (9, 1)].
+Theorem trim_unlisted_refuted :
+  let listed := [1; 2; 3; 4; 6; 7; 9] in let kept := [1; 2; 3; 6] in
+  edges_closed (trim_nodes kept listed) (trim_tree kept listed w_tree) = false /\
+  edges_closed (trim_nodes kept [1; 2; 3; 4; 5; 6; 7; 8; 9]) (trim_tree kept [1; 2; 3; 4; 5; 6; 7; 8; 9] w_tree) = true.
+Proof. vm_compute. split; reflexivity. Qed.
+Print Assumptions trim_unlisted_refuted.
+
 (* ---------------- non-vacuity ---------------- *)
 Example hypotheses_satisfiable :
   let g := w_graph "main.go" "ms"
@@ -194,3 +222,11 @@ Example callgrind_hypotheses_satisfiable :
   let ns := w_cg_ok in
   in_F11 ns = false /\ names_ok "cpu" "ms" ns = true /\ callgrind_ok ns (print_callgrind "cpu" "ms" ns) = true.
 Proof. vm_compute. repeat split; reflexivity. Qed.
+Example trim_hypotheses_satisfiable : wf (fun x => x) w_tree.
+Proof.
+  intros c p H. simpl in H.
+  repeat (destruct H as [H|H];
+          [inversion H; subst; split; [discriminate|]; intro Hp;
+           first [exfalso; apply Hp; reflexivity | split; [simpl; auto 12 | reflexivity]]|]).
+  destruct H.
+Qed.
